@@ -19,7 +19,9 @@ RULE = ("part 'text': arbitrary strings over an alphabet rich in tab, newline, C
         "offered as a line (gfapy.Line) and as a document (Gfa from string / list / file); part 'mutants': 1-3 "
         "point mutations (character, field, line, record-type and tag-type level) of generated valid documents "
         "and of the repository's tests/testdata files; part 'api': arbitrary strings as identifiers, field names, "
-        "datatypes and values passed to the public API of a populated Gfa and of its lines; all x vlevel 0-3 x "
+        "datatypes and values passed to the public API of a populated Gfa and of its lines; part 'cli': bin/gfapy-validate "
+        "as a subprocess on files holding mutated documents (exit status 0 or 1, no traceback, same verdict as "
+        "Gfa.from_file().validate() in process); all x vlevel 0-3 x "
         "version x dialect. Oracle: every call returns or raises gfapy.Error; anything else (incl. RecursionError) "
         "is a leak, bucketed by (exception class, innermost gfapy frame); a call still running after 30 s is "
         "re-run alone with 120 s and then reported as a hang. After a successful load the result is written, "
@@ -483,6 +485,47 @@ def st_api_case(draw):
     return {"version": version, "vlevel": r.randrange(4), "ops": ops}
 
 
+def prop_cli(case):
+    """bin/gfapy-validate on a file: exit status 0 (valid) or 1 (refused with the message of a gfapy.Error); no
+    traceback, and the verdict is the one of Gfa.from_file(...).validate() in this process."""
+    from .. import cli
+    text = case["text"]
+    try:
+        text.encode("utf-8")
+    except UnicodeError:
+        return {"nt": False, "not_text": True}
+    if not cli.available("gfapy-validate"):
+        raise Violation("cli-missing", "bin/gfapy-validate not found under %s" % ROOT)
+    try:
+        rc, out, err = cli.run_script("gfapy-validate", ["x.gfa"], {"x.gfa": text})
+    except Exception as e:
+        if type(e).__name__ == "TimeoutExpired":
+            raise Violation("hang", "gfapy-validate did not terminate within 120 s on %r" % text, "cli")
+        raise
+    if rc not in (0, 1) or "Traceback" in err:
+        last = [x for x in err.strip().split("\n") if x][-1:] or [""]
+        raise Violation("cli-leak", "gfapy-validate on %r: exit status %s\n%s" % (text, rc, err[-1200:]), last[0].split(":")[0][:40])
+    gd = Guard("file %r" % text)
+    cfg = {"vlevel": 1, "entry": "file"}
+    st_, g = load_doc(gd, text, cfg)
+    ok = False
+    if st_ == "ok":
+        st2, _ = gd.call("gfa.validate", g.validate)
+        ok = st2 == "ok"
+    if not gd.leaks and ok != (rc == 0):
+        raise Violation("cli-verdict", "gfapy-validate exits with %d on %r but Gfa.from_file().validate() %s\n%s" % (
+            rc, text, "succeeds" if ok else "raises", err[-600:]), "exit=%d" % rc)
+    return gd.finish({"nt": gd.reached, "cli_exit": rc})
+
+
+@st.composite
+def st_cli_case(draw):
+    case = draw(st_mutant_case())
+    if case["as"] == "line":
+        case["as"] = "doc"
+    return {"text": case["text"]}
+
+
 def prop_fuzz(case):
     if "atheris_stats" in case:
         return {"nt": False, "atheris_campaigns": True, "atheris_runs": case["atheris_stats"].get("runs_bucket")}
@@ -525,7 +568,9 @@ def parts(tier):
     q = tier == "quick"
     return [Part("text", prop_text, strategy=st_text_case(), n=2500 if q else 15000, quick_shards=4),
             Part("mutants", prop_mutant, strategy=st_mutant_case(), n=1500 if q else 12000, quick_shards=4),
-            Part("api", prop_api, strategy=st_api_case(), n=1200 if q else 8000, quick_shards=4)] + (
+            Part("api", prop_api, strategy=st_api_case(), n=1200 if q else 8000, quick_shards=4),
+            Part("cli", prop_cli, strategy=st_cli_case(), n=40 if q else 150, quick_shards=4,
+                 note="bin/gfapy-validate as a subprocess on files holding mutated documents")] + (
         [] if q else [Part("atheris", prop_fuzz, enum=enum_atheris,
                            note="16 libFuzzer campaigns (Atheris, gfapy instrumented) of VERIF_C07_FUZZ_SECONDS (150) s each; "
                                 "evaluations counts only the re-checked records, the number of fuzzer executions is in the labels")])
